@@ -312,7 +312,6 @@ def run_cases(binary, cases, extra_args=None, shards=16, timeout=3000, tag="x", 
     if n == 0:
         return []
     shards = max(1, min(shards, n))
-    size = (n + shards - 1) // shards
     procs = []
     is_harness = os.path.basename(binary).startswith("verif-harness")
     e = dict(os.environ)
@@ -320,7 +319,8 @@ def run_cases(binary, cases, extra_args=None, shards=16, timeout=3000, tag="x", 
     if env:
         e.update(env)
     for si in range(shards):
-        part = cases[si * size:(si + 1) * size]
+        # round-robin: expensive cases tend to be neighbours, so contiguous blocks balance badly
+        part = cases[si::shards]
         if not part:
             continue
         fn = os.path.join(tmpd, "cases-%s-%d-%d.txt" % (tag, os.getpid(), si))
@@ -331,11 +331,11 @@ def run_cases(binary, cases, extra_args=None, shards=16, timeout=3000, tag="x", 
         # the extracted model is not tail-recursive everywhere: give the OCaml driver an unlimited stack
         pre = None if is_harness else _unlimit_stack
         p = subprocess.Popen(cmd, stdout=of, stderr=subprocess.PIPE, env=e, preexec_fn=pre)
-        procs.append((p, fn, of, len(part)))
-    outs = []
+        procs.append((p, fn, of, len(part), si))
+    outs = [None] * n
     err = None
     deadline = time.time() + timeout
-    for p, fn, of, cnt in procs:
+    for p, fn, of, cnt, si in procs:
         try:
             _, se = p.communicate(timeout=max(1, deadline - time.time()))
         except subprocess.TimeoutExpired:
@@ -351,8 +351,8 @@ def run_cases(binary, cases, extra_args=None, shards=16, timeout=3000, tag="x", 
             # the process died (abort / SIGILL / stack overflow): mark the remaining lines
             sig = p.returncode
             tail = (se or b"").decode("utf-8", "replace")[-300:]
-            lines = lines + ["CRASH rc=%s # %s" % (sig, tail.replace("\n", " "))] * (cnt - len(lines))
-        outs.extend(lines)
+            lines = lines[:cnt] + ["CRASH rc=%s # %s" % (sig, tail.replace("\n", " "))] * (cnt - len(lines))
+        outs[si::shards] = lines
         try:
             os.remove(fn)
             os.remove(fn + ".out")
